@@ -326,3 +326,10 @@ class VNested:
 
     def __init__(self, node):
         self.node = node
+
+
+class VArrView:
+    """a[i0,...,ik, :, ..., :] -- a writable view of the trailing axes of an array"""
+
+    def __init__(self, ref, prefix):
+        self.ref, self.prefix = ref, tuple(prefix)
